@@ -126,4 +126,5 @@ func main() {
 	we.Close()
 	wd.Close()
 	wc.Close()
+	runRecords(*out, *seed, *n/3)
 }
